@@ -237,7 +237,7 @@ class TwistedEventLoop(EventLoop):
         if not self.manage_reactor:
             return
         self.reactor.run()
-        if self._exc:
+        if self._exc is not None:
             # An exception caused us to exit, raise it now
             exc = self._exc
             self._exc = None
